@@ -14,6 +14,7 @@ Int = z3.IntSort()
 bslice = z3.Function("bslice", BytesS, Int, Int, BytesS)      # bslice(b, off, len)
 bwrite = z3.Function("bwrite", BytesS, Int, BytesS, BytesS)   # file content after writing d at p
 btrunc = z3.Function("btrunc", BytesS, Int, BytesS)           # first n bytes
+bextend = z3.Function("bextend", BytesS, Int, BytesS)         # zero-extended to n bytes
 # >BI  block header
 pack_BI = z3.Function("pack_BI", Int, Int, BytesS)
 unp_B = z3.Function("unp_B", BytesS, Int)
@@ -63,6 +64,10 @@ def theory():
     A(z3.ForAll([F, n, o, l], z3.Implies(z3.And(o >= 0, l >= 0, o + l <= n, n <= blen(F)),
                                          bslice(btrunc(F, n), o, l) == bslice(F, o, l)),
                 patterns=[bslice(btrunc(F, n), o, l)]))
+    A(z3.ForAll([F, n], z3.Implies(n > blen(F), blen(bextend(F, n)) == n), patterns=[bextend(F, n)]))
+    A(z3.ForAll([F, n, o, l], z3.Implies(z3.And(o >= 0, l >= 0, o + l <= blen(F), n > blen(F)),
+                                         bslice(bextend(F, n), o, l) == bslice(F, o, l)),
+                patterns=[bslice(bextend(F, n), o, l)]))
     # >BI
     rng = z3.And(k >= 0, k < 256, v >= 0, v < 2 ** 32)
     A(z3.ForAll([k, v], z3.Implies(rng, z3.And(blen(pack_BI(k, v)) == BH_SIZE, unp_B(pack_BI(k, v)) == k, unp_I(pack_BI(k, v)) == v)),
@@ -248,9 +253,10 @@ def install(I, mkcls, meth):
         f = s.fields["file"]
         n = to_z3(a[1], "int") if len(a) > 1 and a[1] is not None else to_z3(s.fields["pos"], "int")
         F = bz(f.fields["content"])
-        if not i.st.branch(z3.And(n >= 0, n <= blen(F)), "truncate shrinks"):
-            raise Unsupported("truncate beyond EOF")
-        f.fields["content"] = SV(btrunc(F, n), "bytes")
+        if not i.st.branch(n >= 0, "truncate n>=0"):
+            i.raise_py("OSError", "Invalid argument")
+        # n <= |F|: prefix; n > |F|: zero-extension (bextend); both keep the first min(n,|F|) bytes
+        f.fields["content"] = SV(z3.If(n <= blen(F), btrunc(F, n), bextend(F, n)), "bytes")
         i.st.event("truncate", s, SV(n, "int"))
         return SV(n, "int")
 
